@@ -5,7 +5,8 @@ D=$(readlink -f "$1"); TIER=${2:-quick}
 PID=$(python3 -c "import json;print(json.load(open('$D/meta.json'))['property'])")
 WT=/tmp/wt/eval-$$; BR=/tmp/wt/evalbuild-$$
 git -C /repo worktree add --detach $WT HEAD >/dev/null 2>&1 || exit 3
-git -C $WT apply $D/patch.diff || { echo "patch failed" > $D/detect.txt; git -C /repo worktree remove --force $WT; exit 3; }
+# patch.diff is against the pinned tree; when a later fix: commit touched the same lines, patch.rebased.diff carries the same change on top of the fix
+git -C $WT apply $D/patch.diff 2>/dev/null || git -C $WT apply $D/patch.rebased.diff || { echo "patch failed" > $D/detect.txt; git -C /repo worktree remove --force $WT; exit 3; }
 VERIF_REPO=$WT VERIF_BUILDROOT=$BR /verif/bin/check $PID --tier $TIER > $D/detect.txt 2>&1; rc=$?
 echo "exit=$rc" >> $D/detect.txt
 # keep the minimised replay next to the change
